@@ -1,5 +1,5 @@
 // ---------------- assumed environment: expressions, owned/borrowed values, comparison wrapper (stand-ins; trusted) ----------------
-pub mod liquid_core { pub mod model {
+pub mod liquid_core { pub use crate::ValueCow; pub mod model {
     #[derive(Clone, Copy)]
     pub enum State { Truthy, DefaultValue, Empty, Blank }
     pub use crate::KString;
